@@ -6,6 +6,7 @@ from ..mir import storage_call, switch_conds, cmp_true_false_edges, try_edges
 from ..dataflow import (field_sources, single_var_guard, single_var_regions, single_var_walk, cut_path_exists,
                         const_of, truth_table, region_walk, cmp_truth, FLIP, cond_at)
 from ..guards import ok_return_blocks
+from .common import nonzero_edges
 from ..effects import site_term
 
 EXPLANATION = """
@@ -519,6 +520,12 @@ def check_vault_burn_fee(ctx, model, v):
                 te, fe = cmp_true_false_edges(v, b, c)
                 if c.kind == "call" and c.callee == "white_whale_std::pool_network::asset::has_factory_token":
                     pass_edges += te if c.neg else fe
+                elif nonzero_edges(v, b, c) is not None:
+                    # `share > 0`, `!share.is_zero()`, `share != zero`: the fees pass on the edge where the burn share is zero
+                    x_, at_, nz_e, z_e = nonzero_edges(v, b, c)
+                    xs = v.origins_of_operand(x_, at=at_)
+                    if bool(xs) and all(tuple(o.proj[-2:]) == ("burn_fee", "share") and (not roots or (o.kind, o.a) in roots) for o in xs):
+                        pass_edges += z_e
                 elif c.kind == "cmp" and c.op in (">", "<", "!=", "==", ">=", "<="):
                     at = cond_at(v, c)
                     oa, ob = v.origins_of_operand(c.a, at=at), v.origins_of_operand(c.b, at=at)
